@@ -161,7 +161,7 @@ def watchdog_worker(analysis: Analysis, ctxspec) -> list:
                         boundary = "skips"
                     elif (op == "LtE" and truth) or (op == "Gt" and not truth):
                         boundary = "probes"
-        probe = any(e.kind == "append" and e.args and "message:Message.encode" in repr(e.args[0].key()) for e in s.events) or any(e.kind == "opaque" and "add_job" in e.name for e in s.events)
+        probe = any(e.kind == "append" and e.args and "message:Message.encode" in repr(e.args[0].key()) for e in s.events) or any(e.kind == "opaque" and "add_job" in e.name for e in s.events) or any(e.kind == "enter" and e.name.endswith(".add_job") and len(e.args) > 1 and "message:Message.encode" in repr(e.args[1].key()) for e in s.events)
         restarts = any(e.kind == "store" and e.name == "tcp_check_timer" and e.args and "time.time" in repr(e.args[0].key()) for e in s.events)
         subs = [e.args[0] for e in s.events if e.kind == "store" and e.name == "sub_type" and e.args]
         is_version = bool(subs) and "I_VERSION" in repr(subs[-1].key())
